@@ -1,1 +1,165 @@
-/-! # C22 — property theorems (stub: not built yet) -/
+import PymocaVerif.Lemmas.Delay
+/-!
+# C22 — delay durations are validated and delay arguments preserved
+
+Property theorems only (specification functions `delayNodes`, `allNodes`, `srcAtoms`, `evalS`,
+`evalL` and helper lemmas live in `Lemmas/Delay.lean`).  All statements are about the executable
+model `Model/Delay.lean`, for arbitrary expressions, equation lists and category tables.
+-/
+namespace PymocaVerif.Delay
+open PymocaVerif.Classify (Cat derName delayName)
+
+/-- **args_complete.** The translation records exactly one argument per `delay` call of the
+    source, in the order of the generator's walk (initial equations first, operands before the
+    call), and numbers the input symbols `_pymoca_delay_0 … _pymoca_delay_{n-1}` consecutively:
+    fresh, distinct, one per call — for any nesting, inside and outside for-loops. -/
+theorem args_complete (ieqs eqs : List Equation) :
+    (translate ieqs eqs).args.map (·.k) = List.range (allNodes ieqs eqs).length ∧
+    (translate ieqs eqs).args.map (·.id) = (allNodes ieqs eqs).map (·.1) ∧
+    ((translate ieqs eqs).args.map (·.k)).Nodup :=
+  ⟨(translate_step ieqs eqs).1, (translate_step ieqs eqs).2, by
+    rw [(translate_step ieqs eqs).1]; exact List.nodup_range⟩
+
+example : (allNodes [.eq (.ref "x") (.delay 7 (.ref "y") (.ref "p"))]
+    [.forEq "i" 2 [(.idx "z" (.ref "i"), .delay 8 (.bin .add (.idx "x" (.ref "i")) (.delay 9 (.ref "y") (.lit 1))) (.ref "p"))]]).map
+    (·.1) = [7, 9, 8] := by decide
+
+/-- **disallowed_cases.** The duration check objects to exactly: `time`, a variable classified as
+    state or algebraic, an input that is not fixed, the derivative of a state, and a delay input. -/
+theorem disallowed_cases (c : Cats) (x : Atom) :
+    disallowed c x = true ↔
+      x = .time ∨ (∃ k, x = .dly k) ∨
+      (∃ n, x = .var n ∧ (c.cat n = some .state ∨ c.cat n = some .alg ∨ (c.cat n = some .input ∧ c.fixed n = false))) ∨
+      (∃ n, x = .der n ∧ c.cat n = some .state) := by
+  cases x with
+  | time => simp [disallowed]
+  | dly k => simp [disallowed]
+  | loopIdx n => simp [disallowed]
+  | loopVar => simp [disallowed]
+  | der n => simp [disallowed]
+  | var n =>
+    simp only [disallowed, reduceCtorEq, false_or, Atom.var.injEq, exists_eq_left']
+    cases h : c.cat n with
+    | none => simp
+    | some k => cases k <;> simp
+
+example : disallowed ⟨fun n => if n = "u" then some .input else none, fun _ => false⟩ (.var "u") = true ∧
+    disallowed ⟨fun n => if n = "u" then some .input else none, fun _ => true⟩ (.var "u") = false := by
+  constructor <;> decide
+
+/-- **rejects_iff_partial.** When no duration inside a for-loop mentions that loop's variable, the
+    model is rejected (`_post_checks` raises) iff some `delay` call of the source — at any
+    nesting depth, in initial equations, equations or loop bodies — has a duration that mentions
+    a disallowed symbol (a nested `delay` in a duration counts: it is a non-fixed input).
+    Missing for the full property: durations that mention the loop variable; for those the
+    implementation checks loop-local placeholder symbols instead of the variables (open finding
+    C22-F1, see `loop_indexed_duration_escapes`). -/
+theorem rejects_iff_partial (c : Cats) (ieqs eqs : List Equation)
+    (hi : ∀ q ∈ ieqs, DursLoopFree q) (he : ∀ q ∈ eqs, DursLoopFree q) :
+    postCheckFails c (translate ieqs eqs).args = true ↔
+      ∃ nd ∈ allNodes ieqs eqs, ∃ x ∈ srcAtoms nd.2.2, disallowed c x = true := by
+  have h := durs_translate c ieqs eqs hi he
+  have e1 : postCheckFails c (translate ieqs eqs).args = ((translate ieqs eqs).args.map (durKey c)).any id := by
+    simp [postCheckFails, List.any_map, durKey, Function.comp_def]
+  have e2 : ((allNodes ieqs eqs).map (srcKey c)).any id = (allNodes ieqs eqs).any (srcKey c) := by
+    simp [List.any_map, Function.comp_def]
+  rw [e1, h, e2, List.any_eq_true]
+  simp only [srcKey, List.any_eq_true]
+
+example : DursLoopFree (.forEq "i" 3 [(.idx "z" (.ref "i"), .delay 0 (.idx "x" (.ref "i")) (.bin .mul (.lit 2) (.ref "p")))]) := by
+  intro nd hnd
+  simp [pairNodes, delayNodes] at hnd
+  subst hnd
+  decide
+
+/-- **accepts_iff_partial.** Under the same hypothesis the duration check passes iff every
+    duration of every `delay` call mentions only symbols that are not disallowed — by
+    `disallowed_cases`: constants, parameters, fixed inputs (and literals). -/
+theorem accepts_iff_partial (c : Cats) (ieqs eqs : List Equation)
+    (hi : ∀ q ∈ ieqs, DursLoopFree q) (he : ∀ q ∈ eqs, DursLoopFree q) :
+    postCheckFails c (translate ieqs eqs).args = false ↔
+      ∀ nd ∈ allNodes ieqs eqs, ∀ x ∈ srcAtoms nd.2.2, disallowed c x = false := by
+  have h := rejects_iff_partial c ieqs eqs hi he
+  constructor
+  · intro hf nd hnd x hx
+    cases hd : disallowed c x with
+    | false => rfl
+    | true => rw [h.mpr ⟨nd, hnd, x, hx, hd⟩] at hf; exact absurd hf (by decide)
+  · intro hall
+    cases hp : postCheckFails c (translate ieqs eqs).args with
+    | false => rfl
+    | true =>
+      obtain ⟨nd, hnd, x, hx, hd⟩ := h.mp hp
+      rw [hall nd hnd x hx] at hd; exact absurd hd (by decide)
+
+example : ∀ q ∈ [Equation.eq (.ref "z") (.delay 0 (.ref "x") (.ref "p"))], DursLoopFree q := by
+  intro q hq; simp at hq; subst hq; trivial
+
+/-- The defect behind C22-F1, proved on the model of the code as it is: inside a for-loop a
+    duration on the loop-indexed algebraic variable `y[i]` is *not* rejected (the check sees a
+    placeholder), and the delay-argument function cannot be built (`freeSymbol`). -/
+theorem loop_indexed_duration_escapes :
+    verdict ⟨fun n => if n = "y" then some .alg else if n = "x" then some .state else none, fun _ => false⟩
+      (translate [] [.forEq "i" 2 [(.idx "z" (.ref "i"), .delay 0 (.idx "x" (.ref "i")) (.idx "y" (.ref "i")))]])
+      = .freeSymbol := by decide
+
+example : verdict ⟨fun n => if n = "y" then some .alg else none, fun _ => false⟩
+    (translate [] [.eq (.ref "z") (.delay 0 (.ref "x") (.ref "y"))]) = .reject := by decide
+
+/-- **args_preserved.** For equations outside for-loops: give every delayed quantity of the
+    source a value `τ id`; if the input symbol of each recorded argument carries the value of
+    its node, then every translated equation evaluates like its source equation (each `delay`
+    call was replaced by *its own* input), and every recorded argument belongs to a source
+    node whose delayed expression and duration it evaluates to — for arbitrarily nested delays,
+    initial equations included. -/
+theorem args_preserved (ρ : Env) (τ : Nat → Option Rat) (ieqs eqs : List Equation)
+    (hi : ∀ q ∈ ieqs, Plain q) (he : ∀ q ∈ eqs, Plain q)
+    (hc : ∀ a ∈ (translate ieqs eqs).args, ρ.val (delayName a.k) 0 = τ a.id) :
+    (translate ieqs eqs).ieqs.map (evalEq ρ) = ieqs.map (evalSEq ρ τ) ∧
+    (translate ieqs eqs).eqs.map (evalEq ρ) = eqs.map (evalSEq ρ τ) ∧
+    ∀ a ∈ (translate ieqs eqs).args, ∃ nd ∈ allNodes ieqs eqs, Preserved ρ τ a nd := by
+  rw [translate_args] at hc
+  obtain ⟨i1, i2⟩ := eqs_sem ρ τ ieqs ⟨0, [], true⟩ hi (fun x hx => hc x (List.mem_append_left _ hx))
+  obtain ⟨e1, e2⟩ := eqs_sem ρ τ eqs (trEqs ieqs ⟨0, [], true⟩).2 he (fun x hx => hc x (List.mem_append_right _ hx))
+  refine ⟨by simpa [translate] using i1, by simpa [translate] using e1, ?_⟩
+  intro a ha
+  rw [translate_args] at ha
+  rcases List.mem_append.mp ha with ha | ha
+  · obtain ⟨nd, hnd, hp⟩ := i2 a ha
+    exact ⟨nd, by simp [allNodes, hnd], hp⟩
+  · obtain ⟨nd, hnd, hp⟩ := e2 a ha
+    exact ⟨nd, by
+      simp only [allNodes, List.mem_append]
+      exact Or.inr hnd, hp⟩
+
+example : (∀ q ∈ [Equation.eq (.ref "z") (.delay 0 (.bin .add (.ref "x") (.delay 1 (.ref "y") (.lit 1))) (.ref "p"))], Plain q) ∧
+    (translate [] [.eq (.ref "z") (.delay 0 (.bin .add (.ref "x") (.delay 1 (.ref "y") (.lit 1))) (.ref "p"))]).args.map (·.id)
+      = [1, 0] := by
+  constructor
+  · intro q hq; simp at hq; subst hq; trivial
+  · decide
+
+/-- **loop_args_preserved_partial.** Inside `for v in 1:n`, a `delay(a, d)` whose delayed
+    expression `a` is loop-indexed and contains no further `delay` is recorded as the vector of
+    `a` over the loop values: component `j` evaluates to `a` in iteration `j+1`; the duration is
+    recorded unchanged; the call is replaced by element `v` of the vector input.
+    Missing for the full property: delays nested inside a loop-indexed delayed expression (covered
+    by the correspondence only). -/
+theorem loop_args_preserved_partial (ρ : Env) (v : String) (n id : Nat) (a d : Expr) (s : St)
+    (ha : delayNodes a = []) (hd : delayNodes d = []) (hidx : mentionsIndexed v a = true) :
+    (tr (some (v, n)) (.delay id a d) s).1 = .dsymAt s.next (.ref v) ∧
+    ∃ arg, (tr (some (v, n)) (.delay id a d) s).2.args = s.args ++ [arg] ∧
+      arg.k = s.next ∧ arg.id = id ∧ arg.vec = true ∧ arg.dur = d ∧
+      arg.exprs.map (eval ρ) = (List.range n).map (fun j => evalL ρ v (j + 1) a) := by
+  have ta := tr_id (some (v, n)) a s ha
+  have td := tr_id (some (v, n)) d s hd
+  refine ⟨by simp [tr, ta, td, newSym, hidx], ?_⟩
+  refine ⟨newArg (some (v, n)) s.next id a d, by simp [tr, ta, td], newArg_k _ _ _ _ _, newArg_id _ _ _ _ _,
+    by simp [newArg, hidx], newArg_dur _ _ _ _ _, ?_⟩
+  simp [newArg, hidx, eval_substVar, Function.comp_def]
+
+example : delayNodes (.bin .mul (.lit 2) (.idx "x" (.ref "i"))) = [] ∧
+    mentionsIndexed "i" (.bin .mul (.lit 2) (.idx "x" (.ref "i"))) = true := by
+  constructor <;> decide
+
+end PymocaVerif.Delay
